@@ -27,11 +27,26 @@ theorem export_denotes_the_position (g : Game) :
     Spec.fenStrict g.fen = some g.abs ∧ Spec.fenLoose g.fen4 = some g.abs :=
   ⟨fen_strict g, fen4_denotes g⟩
 
-/-- **C11.3** Importing the exported text succeeds (for boards with possible material — every
-reachable one) and yields a game with the same placement, side, rights and en-passant file. -/
-theorem reimport_gives_the_same_position (g : Game) (hm : MaterialOK g) :
+/-- **C11.3** Importing the exported text succeeds — for boards with possible material whose
+castling rights and en-passant file are backed by the board, which is exactly what the reader
+checks (`reimport_succeeds_iff`) — and yields a game with the same placement, side, rights and
+en-passant file. -/
+theorem reimport_gives_the_same_position (g : Game) (hm : MaterialOK g)
+    (hr : RightsOkBoard g.abs) (he : EpOkBoard g.abs) :
     ∃ g', Game.ofFen g.fen = .ok g' ∧ g'.abs = g.abs :=
-  fen_roundtrip_abs g hm
+  fen_roundtrip_abs g hm hr he
+
+/-- …in particular for every game whose position the rules call sane. -/
+theorem reimport_of_sane_gives_the_same_position (g : Game) (hs : Spec.sane g.abs = true) :
+    ∃ g', Game.ofFen g.fen = .ok g' ∧ g'.abs = g.abs :=
+  fen_roundtrip_abs_of_sane g hs
+
+/-- the three conditions are necessary and sufficient for the re-import to succeed, and whenever
+it succeeds the position is the same -/
+theorem reimport_succeeds_iff (g : Game) :
+    ((∃ g', Game.ofFen g.fen = .ok g') ↔ MaterialOK g ∧ RightsOkBoard g.abs ∧ EpOkBoard g.abs)
+    ∧ ∀ g', Game.ofFen g.fen = .ok g' → g'.abs = g.abs :=
+  ⟨fen_reimport_iff g, fun _ h => fen_roundtrip_abs_of_ok h⟩
 
 /-- **C11.4** …with the same hash, when both games are reachable (C04). -/
 theorem reimport_gives_the_same_hash {g g' : Game} (h : Reach g) (h' : Reach g') (e : g'.abs = g.abs) :
@@ -43,4 +58,6 @@ end Chess.Props.C11
 #print axioms Chess.Props.C11.export_is_six_well_formed_fields
 #print axioms Chess.Props.C11.export_denotes_the_position
 #print axioms Chess.Props.C11.reimport_gives_the_same_position
+#print axioms Chess.Props.C11.reimport_of_sane_gives_the_same_position
+#print axioms Chess.Props.C11.reimport_succeeds_iff
 #print axioms Chess.Props.C11.reimport_gives_the_same_hash
